@@ -7,7 +7,10 @@
 
 package protobuf
 
-import "perun.network/go-perun/channel"
+import (
+	"perun.network/go-perun/channel"
+	"perun.network/go-perun/wallet"
+)
 
 func verifPBIndexMap(x []channel.Index) (y []channel.Index, err error) {
 	return ToIndexMap(FromIndexMap(x))
@@ -54,5 +57,16 @@ func verifPBSignedStateSigs(x *channel.SignedState) (y channel.SignedState, from
 		return y, err, nil
 	}
 	y, toErr = ToSignedState(p)
+	return y, nil, toErr
+}
+
+// The key of an address map entry survives the conversion (lemma for maps with one entry; the entries of larger maps are
+// converted by the same loop bodies).
+func verifPBWalletAddrKey(id wallet.BackendID, a wallet.Address) (y map[wallet.BackendID]wallet.Address, fromErr, toErr error) {
+	p, err := FromWalletAddr(map[wallet.BackendID]wallet.Address{id: a})
+	if err != nil {
+		return nil, err, nil
+	}
+	y, toErr = ToWalletAddr(p)
 	return y, nil, toErr
 }
